@@ -37,6 +37,8 @@ fn attr_types() -> Vec<Ty> {
         Ty::Scaled { min: 10, max: 10, scale: 2.1, offset: 100.2 },
         Ty::Scaled { min: 0, max: 100, scale: -0.5, offset: 3.0 },
         Ty::Scaled { min: i64::MIN, max: i64::MAX, scale: 1.0, offset: 0.0 },
+        Ty::Scaled { min: 0, max: 1000, scale: 1e-19, offset: 0.0 },
+        Ty::F64 { min: Some(1.0), max: Some(1.0 + 4.0 * f64::EPSILON) },
     ]
 }
 
@@ -50,6 +52,9 @@ fn limit_shapes(ty: &Ty) -> Vec<(&'static str, Option<LVal>, Option<LVal>)> {
     v.push(("f64-wider", Some(LVal::F64(-1e300)), Some(LVal::F64(1e300))));
     v.push(("f64-degenerate", Some(LVal::F64(mid)), Some(LVal::F64(mid))));
     v.push(("f64-max-range", Some(LVal::F64(f64::MIN)), Some(LVal::F64(f64::MAX))));
+    v.push(("f64-tiny", Some(LVal::F64(0.0)), Some(LVal::F64(4e-16))));
+    v.push(("f64-tiny-subnormal", Some(LVal::F64(0.0)), Some(LVal::F64(f64::from_bits(8)))));
+    v.push(("f64-adjacent", Some(LVal::F64(tlo)), Some(LVal::F64(f64::from_bits(tlo.to_bits().wrapping_add(if tlo >= 0.0 { 2 } else { 0 }).max(1))))));
     v.push(("f32-unit", Some(LVal::F32(0.0)), Some(LVal::F32(1.0))));
     v.push(("f32-max-range", Some(LVal::F32(f32::MIN)), Some(LVal::F32(f32::MAX))));
     v.push(("int-byte", Some(LVal::Int(0)), Some(LVal::Int(255))));
